@@ -5,13 +5,16 @@
   cells `Transport.protocol`, `protocol.transport` and the fake connections; interleaving
   semantics `run : Cfg → List Nat → Cfg` where **every** list of thread indices is a schedule).
 
-  How the "for every interleaving" quantifier is discharged.  The thread programs are finite,
-  so each scenario has a finite computation tree.  `explored` is a kernel-evaluated
-  (`decide +kernel`, no axiom, no `native_decide`) exhaustive exploration of that tree for all
-  52 scenarios (4 start states × 13 opposing thread sets); `check_sound` (proved by induction
-  over the schedule, Lemmas/Transport.lean) lifts it to schedules of arbitrary length.  The
-  queue theorems are ordinary inductions over the schedule, for any number of producers and
-  any job lists.
+  How the "for every interleaving" quantifier is discharged.  By a general argument: an
+  inductive invariant of the sending thread (`SInv`) that every step of the sender preserves
+  (case analysis over its five program points) and every step of any other thread preserves
+  (those threads never call `write`, never set `protocol` to an object, never install `c0`
+  again, never reopen a connection: `BenignStep`).  Induction over the schedule then gives the
+  theorems for schedules of any length and — in `send_safe_general` — for any number of
+  opposing threads in any state.  `explored_two_thread` re-derives the safety part for the
+  two-thread scenarios by kernel-evaluated exhaustive exploration (`decide +kernel`, no axiom)
+  lifted to all schedules by `check_sound`, as an independent cross-check.  The queue theorems
+  are ordinary inductions over the schedule, for any number of producers and any job lists.
 
   What the fake connection does on `write`: it appends `(c, true)` to `attempts` when it is
   open at that step and `(c, false)` (and raises `OSError`) when it has been closed — the real
@@ -24,73 +27,85 @@ namespace MySensors.C16
 
 open MySensors.Tr
 
-/-- the sender has not raised -/
-def senderOk (c : Cfg) : Bool :=
-  (sender c).st == .running || (sender c).st == .returned
+/-- **General form.**  One `Transport.send` against *any number* of threads of the other kinds
+    (loss hook, reader `connection_lost`, `disconnect`, `connection_made`; with or without error;
+    each in any state of its program) from *any* shared state with an empty write log, under
+    **every** schedule (`s : List Nat` of any length; picking a finished or blocked thread is a
+    no-op).  Proved by an inductive invariant (`SInv`, Lemmas/Transport.lean), not by
+    enumeration:
+    * the sender is running or has returned normally — never `AttributeError`; the only
+      exception `write` can raise, `OSError`, is handled;
+    * `write` is called at most once in total, so the message is in the write logs of all
+      connections together at most once (an entry of the write log is, by the definition of the
+      fake connection, a write on a connection that was open at that step);
+    * five more steps of its own always bring the sender to `returned` (it is never blocked);
+    * if it has returned without a logged write, the initial connection is no longer installed
+      and open (`¬ Live`): the message is never dropped without a cause. -/
+theorem send_safe_general (sh : Sh) (hat : sh.attempts = []) (others : List Th)
+    (hb : ∀ o ∈ others, benignKind o.kind = true) (s : List Nat) :
+    let c := run { sh := sh, ths := { kind := .send } :: others } s
+    ((sender c).st = .running ∨ (sender c).st = .returned) ∧
+    c.sh.attempts.length ≤ 1 ∧ c.sh.writeLog.length ≤ 1 ∧
+    (sender (run c (List.replicate 5 0))).st = .returned ∧
+    ((sender c).st = .returned → c.sh.writeLog.length ≠ 1 → ¬ Live c.sh) := by
+  intro c
+  have hg0 : Good { sh := sh, ths := { kind := .send } :: others } :=
+    ⟨_, others, rfl, sinv_init sh hat, hb⟩
+  have hg : Good c := good_run s _ hg0
+  have hi := good_sender hg
+  refine ⟨hi.ok, hi.att, ?_, ?_, hi.drop⟩
+  · unfold Sh.writeLog
+    rw [List.length_map]
+    exact Nat.le_trans (List.length_filter_le _ _) hi.att
+  · apply good_finish 5 c hg
+    intro _; omega
 
-/-- if, when everything has finished, the initial connection is still installed and open, the
-    message was not dropped -/
-def noSpuriousDrop (c : Cfg) : Bool :=
-  !(c.sh.tp && c.sh.pt == some .c0 && c.sh.open0) || c.sh.writeLog.length == 1
+theorem good_init (sc : Scenario) : Good (init sc) := by
+  refine ⟨_, otherThreads sc.other, rfl, sinv_init _ ?_, ?_⟩
+  · show (startSh sc.start).attempts = []
+    cases sc.start <;> rfl
+  · have : ∀ x ∈ otherThreads sc.other, benignKind x.kind = true := by
+      cases sc.other <;> simp [otherThreads, benignKind]
+    exact this
 
-/-- what the exploration checks in every reachable configuration -/
-def safe (c : Cfg) : Bool :=
-  senderOk c && decide (c.sh.attempts.length ≤ 1) &&
-  ((sender c).st != .running || (stepAt 0 c).isSome) &&
-  (sender (run c [0, 0, 0, 0, 0])).st == .returned &&
-  (!(quiescent c) || ((sender c).st == .returned && noSpuriousDrop c))
+theorem good_reach (sc : Scenario) (s : List Nat) : Good (run (init sc) s) :=
+  good_run s _ (good_init sc)
 
-/-- kernel-evaluated exhaustive exploration of all 52 scenarios -/
-theorem explored : allScenarios.all (fun sc => check safe fuel (init sc)) = true := by
-  decide +kernel
-
-theorem mem_allScenarios (sc : Scenario) : sc ∈ allScenarios := by
-  obtain ⟨s, o⟩ := sc
-  cases s <;> cases o <;> (try rename_i e; cases e) <;> decide
-
-theorem safe_run (sc : Scenario) (s : List Nat) : safe (run (init sc) s) = true := by
-  have h := List.all_eq_true.mp explored sc (mem_allScenarios sc)
-  exact check_sound safe s fuel (init sc) h
-
-/-- **the sender never raises.**  For every scenario (start state × opposing threads: a loss
-    with or without error, through the hook or through the reader's `connection_lost`, a user
-    disconnect, a loss followed by the reconnect it requested, a first connection, or a loss and
-    a disconnect together) and **every** schedule, `Transport.send` is still running or has
-    returned normally — never `AttributeError`, and the only exception `write` can raise
-    (`OSError`) is handled. -/
+/-- **the sender never raises.**  For every scenario (4 start states × 13 opposing thread sets:
+    a loss with or without error, through the hook or through the reader's `connection_lost`, a
+    user disconnect, a loss followed by the reconnect it requested, a first connection, or a
+    loss and a disconnect together) and **every** schedule, `Transport.send` is still running
+    or has returned normally. -/
 theorem send_never_raises (sc : Scenario) (s : List Nat) :
-    (sender (run (init sc) s)).st = .running ∨ (sender (run (init sc) s)).st = .returned := by
-  have h := safe_run sc s
-  simp only [safe, senderOk, Bool.and_eq_true, Bool.or_eq_true, beq_iff_eq] at h
-  exact h.1.1.1.1
+    (sender (run (init sc) s)).st = .running ∨ (sender (run (init sc) s)).st = .returned :=
+  (good_sender (good_reach sc s)).ok
 
-/-- the sender is never blocked, and from any reachable configuration five more steps of its
-    own bring it to `returned` -/
+/-- the sender is never blocked: from any reachable configuration five more steps of its own
+    bring it to `returned` -/
 theorem send_terminates (sc : Scenario) (s : List Nat) :
-    (sender (run (run (init sc) s) [0, 0, 0, 0, 0])).st = .returned := by
-  have h := safe_run sc s
-  simp only [safe, Bool.and_eq_true, beq_iff_eq] at h
-  exact h.1.2
+    (sender (run (run (init sc) s) [0, 0, 0, 0, 0])).st = .returned :=
+  good_finish 5 _ (good_reach sc s) (by intro _; omega)
 
 /-- when nothing can move any more, the sender has returned -/
 theorem send_returns (sc : Scenario) (s : List Nat) (hq : quiescent (run (init sc) s) = true) :
     (sender (run (init sc) s)).st = .returned := by
-  have h := safe_run sc s
-  simp only [safe, Bool.and_eq_true, Bool.or_eq_true, Bool.not_eq_true', beq_iff_eq] at h
-  cases h.2 with
-  | inl h1 => rw [hq] at h1; cases h1
-  | inr h2 => exact h2.1
+  have hg := good_reach sc s
+  cases (good_sender hg).ok with
+  | inr h => exact h
+  | inl hrun =>
+    exfalso
+    obtain ⟨c', hs, _, _⟩ := good_stepAt_zero hg hrun
+    unfold quiescent at hq
+    rw [List.all_eq_true] at hq
+    have := hq 0 (List.mem_range.mpr (stepAt_lt hs))
+    rw [hs] at this; cases this
 
 /-- **at most once.**  In every scenario and schedule `send` calls `write` at most once in
-    total (so the message is in the write logs of all connections together at most once), and
-    an entry of the write log is by definition a `write` on a connection that was open at that
-    step. -/
+    total, so the message is in the write logs of all connections together at most once. -/
 theorem at_most_once (sc : Scenario) (s : List Nat) :
     (run (init sc) s).sh.attempts.length ≤ 1 ∧ (run (init sc) s).sh.writeLog.length ≤ 1 := by
-  have h := safe_run sc s
-  simp only [safe, Bool.and_eq_true, decide_eq_true_eq] at h
-  refine ⟨h.1.1.1.2, ?_⟩
-  have h1 := h.1.1.1.2
+  have h1 := (good_sender (good_reach sc s)).att
+  refine ⟨h1, ?_⟩
   unfold Sh.writeLog
   rw [List.length_map]
   exact Nat.le_trans (List.length_filter_le _ _) h1
@@ -102,22 +117,34 @@ theorem written_or_dropped (sc : Scenario) (s : List Nat) (hq : quiescent (run (
     ((run (init sc) s).sh.writeLog.length = 1 ∨ (run (init sc) s).sh.writeLog = []) ∧
     ((run (init sc) s).sh.tp = true → (run (init sc) s).sh.pt = some .c0 →
       (run (init sc) s).sh.open0 = true → (run (init sc) s).sh.writeLog.length = 1) := by
-  have h := safe_run sc s
-  simp only [safe, noSpuriousDrop, Bool.and_eq_true, Bool.or_eq_true, Bool.not_eq_true',
-    beq_iff_eq] at h
   constructor
   · have := (at_most_once sc s).2
     match hl : (run (init sc) s).sh.writeLog with
     | [] => exact Or.inr rfl
     | [_] => exact Or.inl rfl
-    | _ :: _ :: _ => rw [hl] at this; simp at this; omega
+    | _ :: _ :: _ => rw [hl] at this; simp at this
   · intro h1 h2 h3
-    cases h.2 with
-    | inl hnq => rw [hq] at hnq; cases hnq
-    | inr hd =>
-      cases hd.2 with
-      | inl hn => simp [h1, h2, h3] at hn
-      | inr hw => exact hw
+    have hret := send_returns sc s hq
+    have hd := (good_sender (good_reach sc s)).drop hret
+    by_cases hw : (run (init sc) s).sh.writeLog.length = 1
+    · exact hw
+    · exact absurd ⟨h1, h2, h3⟩ (hd hw)
+
+/-- cross-check of the invariant proof by kernel evaluation: the exhaustive exploration of all
+    two-thread scenarios (`check`, lifted to all schedules by `check_sound`) finds the sender
+    never raised and at most one `write` call -/
+def light (c : Cfg) : Bool :=
+  ((sender c).st == .running || (sender c).st == .returned) && decide (c.sh.attempts.length ≤ 1)
+
+def twoThread : List Scenario :=
+  allScenarios.filter fun sc => (otherThreads sc.other).length ≤ 1
+
+theorem explored_two_thread : twoThread.all (fun sc => check light fuel (init sc)) = true := by
+  decide +kernel
+
+theorem explored_two_thread_all_schedules (sc : Scenario) (h : sc ∈ twoThread) (s : List Nat) :
+    light (run (init sc) s) = true :=
+  check_sound light s fuel (init sc) (List.all_eq_true.mp explored_two_thread sc h)
 
 /-- without interference the message is written exactly once on the open connection -/
 theorem sender_alone_writes_once :
@@ -214,7 +241,7 @@ example : tagged [[(0, 10), (0, 11)], [(1, 20)]] := by
   | 1 => simp at hj; subst hj; rfl
   | n + 2 => simp at hj
 example : (qrun (qinit [[(0, 10), (0, 11)], [(1, 20)]])
-    [.produce 0, .pump, .produce 1, .pump, .produce 0, .pump, .pump, .pump, .pump, .pump]).sent
+    [.produce 0, .pump, .produce 1, .pump, .produce 0, .pump, .pump, .pump, .pump, .pump, .pump, .pump]).sent
     = [(0, 10), (1, 20), (0, 11)] := by decide
 
 end MySensors.C16
